@@ -370,7 +370,7 @@ def run_daemon(desc):
             d.wait_lines('replies', lambda ls: any(x.startswith('["wait", "g2"') for x in ls), timeout=60)
             replies = [_json.loads(x) for x in d.lines('replies')]
             if any(x[0] == 'timeout' for x in replies) or any(x[0] == 'got' and 'error' in x[1] for x in replies):
-                res.inconclusive.append('daemon: an API command of the scenario was refused or not answered: ' + str([x for x in replies if x[0] != 'sent'][-4:])[:300])
+                daemon.skipped(res, 'an API command of the scenario was refused or not answered: ' + str([x for x in replies if x[0] != 'sent'][-4:]))
                 continue
             # connections queued in the backlog before the API operations were made are dropped: the next one is judged
             time.sleep(0.5)
@@ -385,7 +385,7 @@ def run_daemon(desc):
             peer.establish(65001, hold=90)
             rx = peer.drain(quiet=1.5, limit=60)
         except daemon.Inconclusive as e:
-            res.inconclusive.append('daemon: ' + str(e)[:300])
+            daemon.skipped(res, str(e))
             continue
         finally:
             try:
